@@ -101,14 +101,14 @@ class Report:
                  path_sites(path))
         return False
 
-    def must_take_edge(self, rule, instance, f, starts, targets, edges, what="", to_exit=False, include_start=True):
+    def must_take_edge(self, rule, instance, f, starts, targets, edges, what="", to_exit=False, include_start=True, avoid=None):
         """every path from a start to a target (or exit) takes one of the CFG edges in `edges`
         ((from_block_id, to_block_id) pairs)."""
         self.touch(f)
         self.paths += 1
         bl = set(edges)
         eok = lambda term, succ: (term.blk.id, succ) not in bl
-        hit, parent = f.reach(starts, targets, edge_ok=eok, stop_at_exit=to_exit, include_start=include_start)
+        hit, parent = f.reach(starts, targets, edge_ok=eok, stop_at_exit=to_exit, include_start=include_start, avoid=avoid)
         if hit is None:
             self.ok(rule, instance, "%s: every path takes one of %d guarded edge(s)" % (what, len(bl)), [s.where() for s in starts[:2]])
             return True
